@@ -145,8 +145,10 @@ func readByte(r io.Reader) (int64, byte, error) {
 		v, err := r.ReadByte()
 		return 1, v, err
 	}
+	// io.ReadFull, not a bare Read: a reader may deliver the byte together with
+	// io.EOF (or deliver nothing yet), neither of which is a failure
 	var v [1]byte
-	n, err := r.Read(v[:])
+	n, err := io.ReadFull(r, v[:])
 	return int64(n), v[0], err
 }
 
